@@ -149,6 +149,7 @@ def c18(ctx):
     obs, getters = res
     obs += r_desc.rule_fallback(dm, getters)
     obs += r_desc.rule_dispatch(dm, getters)
+    obs += r_lock.rule_notry(ctx.lm)
     d = [b for b in prog.bodies if b.name == r_desc.DESCRIBE]
     if d:
         reach = [prog.by_id[i] for i in sorted(prog.reach([d[0].id]))]
@@ -180,6 +181,7 @@ def c08(ctx):
     obs += r_registry.rule_wdisp(rm, em)
     obs += r_registry.rule_receivers(rm, em)
     obs += r_misc.rule_statics(ctx)
+    obs += r_lock.rule_notry(ctx.lm)
     return obs, {'analysed': {'writers': len(rm.writers), 'fillers': len(rm.fillers), 'must_init_bodies': len(rm.must_init)}}
 
 
@@ -201,6 +203,7 @@ def c13(ctx):
     obs += o2
     obs += r_lock.rule_once(lm)
     obs += r_lock.rule_escape(lm)
+    obs += r_lock.rule_notry(lm)
     obs += r_lock.rule_floors(lm)
     return obs, {'analysed': {'guard_live_call_sites': n, 'statics': len(ctx.facts.statics)}}
 
@@ -230,6 +233,9 @@ def c17(ctx):
     prog = ctx.prog
     obs = r_value.rule_lossy(prog)
     obs += r_value.rule_tacc(prog)
+    vb = r_value.accessors(prog) + r_value.from_impls(prog)
+    vscope = [prog.by_id[i] for i in sorted(prog.reach([b.id for b in vb])) if prog.by_id[i].name.startswith(('value::', '<value::'))]
+    obs += r_nowrap.rule_nowrap(vscope)
     obs += r_value.rule_tfrom(prog)
     return obs, {'analysed': {'from_impls': len(r_value.from_impls(prog)), 'accessors': len(r_value.accessors(prog))}}
 
@@ -247,6 +253,8 @@ def c03(ctx):
     hs = prog.builtin_handlers()
     obs = r_value.rule_tacc(prog)
     obs += r_value.rule_htyped(prog, hs)
+    hscope = [prog.by_id[i] for i in sorted(prog.reach([h.id for h in hs]))]
+    obs += r_nowrap.rule_nowrap([b for b in hscope if not b.derived])
     obs.append(floor('HTYPED', 'builtin-handlers', len(hs), 20, 'documented built-in operators and functions'))
     return obs, {'analysed': {'builtin_handlers': len(hs)}}
 
@@ -313,6 +321,8 @@ def c09(ctx):
     obs = r_num.rule_tychain(prog, roles)
     bodies = r_num.number_scope(prog, roles, em)
     obs += r_num.rule_wfloat(bodies)
+    obs += [o for o in r_nowrap.rule_nowrap([b for b in bodies if not b.name.startswith('value::Value::')], rule='NUMPATH') if o.status == 'violated' and ('|lossy:' in o.key or '|cast:' in o.key)]
+    obs += r_num.rule_intfast(bodies)
     obs += r_num.rule_literal_path(prog, roles, em)
     obs += r_value.rule_tacc(prog)
     obs += r_value.rule_htyped(prog, prog.builtin_handlers())
